@@ -430,6 +430,17 @@ def c05_streams(ctx):
             t = "".join(t)
             yield Case("prop", "spec_iban_verdict", [enc(t)], "iban-multi-defect", True, "member")
             yield Case("corr", "iban_new", [enc(t), "0", "0"], "iban-multi-defect", True)
+    # the entry points agree whatever was asked before: strict validation of a nationally invalid IBAN after lenient
+    # uses of the same text / on an object already validated leniently
+    for cc in (NATIONAL if not ctx.quick else rng.sample(NATIONAL, 6)):
+        if cc not in ctx.facts["iban_rows"]:
+            continue
+        bad = [b for b, v in national_candidates(ctx, cc, 1) if v == "0"]
+        for b in rng.sample(bad, min(len(bad), 2 if ctx.quick else 6)):
+            iban = cc + iso_digits(cc, b) + b
+            yield Case("prop", "spec_national_accept_after", [enc(iban)], "iban-after-lenient", True)
+            yield Case("corr", "iban_validate_after", [enc(iban), "1"], "iban-after-lenient", True)
+            yield Case("corr", "iban_new_after", [enc(iban), "0", "1"], "iban-after-lenient", True)
 
 
 # ------------------------------------------------------------------------------------------------
@@ -767,6 +778,17 @@ def c17_streams(ctx):
     for i in range(len(banks)):
         yield Case("prop", "spec_wf_bank", [str(i)], "wf-bank", True)
     yield Case("corr", "n_banks", [], "bank-list", True)
+    # every country that has a national algorithm registered: the algorithm runs on the fields the country defines
+    for key in sorted(ctx.facts["algorithms"]):
+        cc, _, name = key.partition(":")
+        row = ctx.facts["iban_rows"].get(cc)
+        if name != "default" or row is None or not row.get("positions"):
+            continue
+        pos = row["positions"]
+        w = {k: pos.get(k, [0, 0])[1] - pos.get(k, [0, 0])[0] for k in ("bank_code", "branch_code", "account_code")}
+        for _ in range(2 if ctx.quick else 8):
+            vals = [component_values(ctx, cc, k, w[k])[0] if w[k] else "" for k in ("bank_code", "account_code", "branch_code")]
+            yield Case("prop", "spec_generate", [enc(cc)] + [enc(v) for v in vals], "algorithm-runs-" + cc, True)
     # every listed bank can occur in a valid IBAN and is found again from it
     for i in (range(len(banks)) if not ctx.quick else rng.sample(range(len(banks)), 800)):
         cc, code, _bic = banks[i]
@@ -860,6 +882,11 @@ def c06_streams(ctx):
             yield Case("prop", "spec_national_accept", [enc(iban)], cc + "-iban-" + tag, True)
             yield Case("corr", "iban_new", [enc(iban), "0", "1"], cc + "-iban-" + tag, True)
             yield Case("corr", "iban_validate", [enc(iban), "1"], cc + "-iban-" + tag, True)
+            if tag != "accept-side" and (not ctx.quick or rng.random() < 0.5):
+                # the same strict questions after lenient uses of the same text / on an object validated leniently before
+                yield Case("prop", "spec_national_accept_after", [enc(iban)], cc + "-iban-after-lenient", True)
+                yield Case("corr", "iban_validate_after", [enc(iban), "1"], cc + "-iban-after-lenient", True)
+                yield Case("corr", "iban_new_after", [enc(iban), "0", "1"], cc + "-iban-after-lenient", True)
         # single-digit perturbations of valid numbers
         for b in valid[: (4 if ctx.quick else 40)]:
             p = rng.randrange(len(b))
@@ -943,8 +970,29 @@ def c08_streams(ctx):
         yield Case("corr", "from_components", [enc(cc), enc(bk), enc(br), enc(ac)], "from_components", True)
 
 
+def generated_post(cc):
+    def post(impl_result):
+        res, rest = impl_result.split(" ## ", 1)
+        if res == "GEN":
+            return "1", [enc(cc), rest]
+        return "SKIP", ["-"]
+    return post
+
+
 def c09_streams(ctx):
     rng = ctx.rng
+    # what generate computes for a country the property names is what that country's PUBLISHED rule accepts (asked from
+    # the extracted specification, not from the library's own validation - which could be missing altogether)
+    for cc in sorted(COMPUTING):
+        row = ctx.facts["iban_rows"].get(cc)
+        if not row or not row.get("positions"):
+            continue
+        pos = row["positions"]
+        w = {k: pos.get(k, [0, 0])[1] - pos.get(k, [0, 0])[0] for k in ("bank_code", "branch_code", "account_code")}
+        for _ in range(3 if ctx.quick else 30):
+            bk, ac, br = [component_values(ctx, cc, k, w[k])[0] if w[k] else "" for k in ("bank_code", "account_code", "branch_code")]
+            yield Case("prop", "generated_published", [enc(cc), enc(bk), enc(ac), enc(br)], "generated-is-published-" + cc, True,
+                       "eq", None, generated_post(cc))
     for cc, bk, ac, br in c08_inputs(ctx):
         if (cc in TWEAK and cc not in ("CZ", "SK", "IS")) or (cc not in TWEAK and ctx.rng.random() < 0.2):
             args = [enc(cc), enc(bk), enc(ac), enc(br)]
